@@ -192,15 +192,16 @@ class DictArray(StorageBase):
             return
         path = self._path()
         path.parent.mkdir(parents=True, exist_ok=True)
-        dump(self._dict, path)
+        dump(dict(self._dict), path)
 
     def load(self) -> None:
         """Load the dict storage from disk."""
         if self.folder is None:  # pragma: no cover
             return
-        if not self.folder.exists():
+        path = self._path()
+        if not path.is_file():
             return
-        self._dict = load(self._path())
+        self._dict.update(load(path))
 
     @property
     def dump_in_subprocess(self) -> bool:
